@@ -186,7 +186,14 @@ def run_property(prop, tier, seed, rebaseline=False, only_unit=None):
             comb = f["message"] + " :: " + f["text"] + " :: " + f["src"]
             if clst and re.search(clst, comb):
                 return True
-            if cls and not re.search(cls, f["message"]):
+            c = cls
+            for fn_re, fn_cls in reg.get("fn_classes", []):
+                # per-function override: functions whose functional postconditions belong to another property count here only
+                # with the failure classes named (e.g. panic-site preconditions and accumulator-discipline assertions for C06)
+                if re.search(fn_re, f["fn"]):
+                    c = fn_cls
+                    break
+            if c and not re.search(c, f["message"]):
                 return False
             if xt and re.search(xt, f["text"] + " :: " + f["src"]):
                 return False
